@@ -8,12 +8,13 @@ EXPLANATION = ("regularize_parameters, parameters_configuration and build_option
                "definition in the bound (the shape of the definition -- number of parameters, number of values, scalar / list / "
                "nested dict, value types -- is solver-chosen and exhausted); the oracle is itertools.product over the sorted keys "
                "and sorted string values, written independently. Discrete exploration: there is no numeric symbolic input.")
-ASSUMPTIONS = ["values are ints / strs drawn from small pools and distinct after str()", "one nested level of sub-parameters"]
+ASSUMPTIONS = ["values are ints / strs / bools drawn from small pools (including the falsy 0 and False) and distinct after str()", "one nested level of sub-parameters"]
 BOUNDS = {"quick": "<= 3 parameters, each a scalar, a list of 1-3 values or a nested dict of <= 2 sub-parameters with 1-2 values; empty definitions included",
           "thorough": "<= 4 parameters"}
 OUTSIDE = "deeper nesting, duplicate values, non str/int values"
 CAP_S = {"quick": 600, "thorough": 3600}
-POOL = [3, "b", 10, "a", 2]
+POOL = [0, "b", 10, "a", 2]
+SCALARS = [0, "b", 10, False]      # falsy scalars (0, False) are legitimate parameter values
 
 
 def jobs(tier):
@@ -23,7 +24,7 @@ def jobs(tier):
 def _values(eng, tag, maxn):
     kind = eng.pick(["scalar", "list"], "kind_" + tag)
     if kind == "scalar":
-        return POOL[eng.choose(3, "val_" + tag)]
+        return SCALARS[eng.choose(len(SCALARS), "val_" + tag)]
     n = eng.choose(maxn, "len_" + tag) + 1
     start = eng.choose(2, "start_" + tag)
     return [POOL[(start + i) % len(POOL)] for i in range(n)]
